@@ -81,6 +81,11 @@ type Tunnel struct {
 	// Incoming requests
 	inbound chan cemi.Message
 
+	// Messages the client has not taken yet, in arrival order
+	inboundMu    sync.Mutex
+	inboundQueue []cemi.Message
+	inboundBusy  bool
+
 	// Goroutine controller
 	done chan struct{}
 	once sync.Once
@@ -354,20 +359,51 @@ func (conn *Tunnel) handleDiscRes(res *knxnet.DiscRes) error {
 	return nil
 }
 
-// pushInbound sends the message through the inbound channel. If the sending blocks, it will launch
-// a goroutine which will do the sending.
+// pushInbound hands the message to the client without blocking the caller. Messages which cannot
+// be taken right away are queued and delivered by a single goroutine, so they reach the client in
+// the order in which they were pushed.
 func (conn *Tunnel) pushInbound(msg cemi.Message) {
-	select {
-	case conn.inbound <- msg:
+	conn.inboundMu.Lock()
+	defer conn.inboundMu.Unlock()
 
-	default:
-		go func() {
-			// Since this goroutine decouples from the server goroutine, it might try to send when
-			// the server closed the inbound channel. Sending to a closed channel will panic. But we
-			// don't care, because cool guys don't look at explosions.
-			defer func() { recover() }()
-			conn.inbound <- msg
-		}()
+	if !conn.inboundBusy {
+		select {
+		case conn.inbound <- msg:
+			return
+
+		default:
+		}
+	}
+
+	conn.inboundQueue = append(conn.inboundQueue, msg)
+
+	if !conn.inboundBusy {
+		conn.inboundBusy = true
+		go conn.drainInbound()
+	}
+}
+
+// drainInbound delivers the queued messages one after the other.
+func (conn *Tunnel) drainInbound() {
+	// Since this goroutine decouples from the server goroutine, it might try to send when
+	// the server closed the inbound channel. Sending to a closed channel will panic. But we
+	// don't care, because cool guys don't look at explosions.
+	defer func() { recover() }()
+
+	for {
+		conn.inboundMu.Lock()
+
+		if len(conn.inboundQueue) == 0 {
+			conn.inboundBusy = false
+			conn.inboundMu.Unlock()
+			return
+		}
+
+		msg := conn.inboundQueue[0]
+		conn.inboundQueue = conn.inboundQueue[1:]
+		conn.inboundMu.Unlock()
+
+		conn.inbound <- msg
 	}
 }
 
